@@ -29,7 +29,7 @@ RULE = (
     "data or L != R, AND some sequence has length >= 2 or the application is a composite/right action."
 )
 ASSUMPTIONS = ["operands are dense numpy arrays or scipy sparse matrices wrapped by aslinearoperator"]
-REQUIRED_CLASSES = {"all": ["class=orthonormal", "class=biorthogonal", "class=general", "complex", "app=compose", "app=rmatvec", "app=right", "seqlen>=3", "mixed-dtype-vectors"]}
+REQUIRED_CLASSES = {"all": ["class=orthonormal", "class=biorthogonal", "class=general", "class=near_hermitian", "complex", "app=compose", "app=rmatvec", "app=right", "seqlen>=3", "mixed-dtype-vectors"]}
 
 UNARY = ["T", "H", "conj", "adjoint", "transpose"]
 APPS = ["left_vec", "left_col", "left_mat", "right_vec", "right_mat", "matvec", "rmatvec", "matmat", "rmatmat",
@@ -40,7 +40,7 @@ APPS = ["left_vec", "left_col", "left_mat", "right_vec", "right_mat", "matvec", 
 def _case(draw, tier):
     n = draw(st.integers(2, 8))
     k = draw(st.integers(1, min(4, n - 1)))
-    cls = draw(st.sampled_from(["orthonormal", "biorthogonal", "biorthogonal", "general"]))
+    cls = draw(st.sampled_from(["orthonormal", "biorthogonal", "biorthogonal", "general", "near_hermitian"]))
     cplx = draw(st.booleans())
     ent = st.integers(-3, 3)
 
@@ -72,7 +72,7 @@ def _arr(M, cplx):
 
 
 def build_vectors(case):
-    mixed = case.get("mixed") if case["complex"] and case["class"] != "orthonormal" else None
+    mixed = case.get("mixed") if case["complex"] and case["class"] not in ("orthonormal", "near_hermitian") else None
     if mixed:
         # real right vectors with complex left vectors (L^dagger R = 1 still holds in the biorthogonal class), or the two
         # sets exchanged
@@ -86,6 +86,12 @@ def build_vectors(case):
     if case["class"] == "orthonormal":
         Q, _ = np.linalg.qr(base)
         return Q, None
+    if case["class"] == "near_hermitian":
+        # biorthogonal pair whose members differ by one part in a million (left / right eigenvectors of a weakly
+        # non-Hermitian problem): L^dagger R = 1 exactly, L != R, but numpy.allclose(L, R) with its default tolerances
+        Q, _ = np.linalg.qr(base)
+        s_ = 1 + 2.0**-20
+        return Q * s_, Q / s_
     R = base
     Ginv = np.linalg.inv(R.conj().T @ R)
     L0 = R @ Ginv  # L0^dagger R = 1
